@@ -30,6 +30,14 @@ type thread struct {
 	pred    func() bool // nil = enabled
 	why     string
 	yielded bool // parked at a spin-loop yield: others go first
+	// spinMode: the thread is going round a polling loop (set at a spin yield, cleared when
+	// it blocks, or passes 64 other scheduling points without coming back to the spin
+	// yield).  A step of a thread in spin mode is not "progress": it does not re-arm the
+	// other spin-yielders - otherwise two pollers re-arm each other for ever, Settle never
+	// sees them quiescent, and choosing between them is an unbounded chain of free choices.
+	spinMode  bool
+	sinceSpin int
+	lastRun   int
 	settling bool // parked in Settle (counts as quiescent for other settlers)
 	fn      func()
 	panicV  any
@@ -234,11 +242,15 @@ func (s *Sched) Run() {
 		// several spinners goes first is immaterial, so that is not a choice point
 		onlySpinners := len(order) == 0
 		if onlySpinners {
+			// the least recently run one (round robin: every poller gets to see what the others did)
+			var pickT *thread
 			for _, t := range enabled {
-				if t.yielded {
-					order = append(order, t)
-					break
+				if t.yielded && (pickT == nil || t.lastRun < pickT.lastRun) {
+					pickT = t
 				}
+			}
+			if pickT != nil {
+				order = append(order, pickT)
 			}
 		}
 		pick := 0
@@ -252,13 +264,14 @@ func (s *Sched) Run() {
 			pick = s.c.ChooseCost(len(order), "sched", costs)
 		}
 		t := order[pick]
-		// progress by any thread re-arms the spin-yielders
-		if !t.yielded {
+		// progress by a thread that is not itself polling re-arms the spin-yielders
+		if !t.yielded && !t.spinMode {
 			for _, o := range s.threads {
 				o.yielded = false
 			}
 		}
 		t.yielded = false
+		t.lastRun = s.steps
 		t.pred = nil
 		s.cur = t
 		if len(s.Trace) < 3000 {
@@ -299,6 +312,12 @@ func (s *Sched) yield(why string, pred func() bool) {
 	t := s.cur
 	t.why = why
 	t.pred = pred
+	if why != "spin" {
+		t.sinceSpin++
+		if pred != nil || t.sinceSpin > 64 {
+			t.spinMode = false
+		}
+	}
 	s.back <- struct{}{}
 	<-t.wake
 	if s.aborted {
@@ -359,6 +378,8 @@ func Tick(spin bool) {
 	}
 	if spin {
 		s.cur.yielded = true
+		s.cur.spinMode = true
+		s.cur.sinceSpin = 0
 		s.yield("spin", nil)
 	}
 }
